@@ -306,3 +306,44 @@ func (d *Ledger) advCount() []byte {
 		return nb(uint64(1 + d.R.Intn(3)))
 	}
 }
+
+// actForgedLocal: a LOCAL account sends a call in the destination-side message format (payload instead of a destination address,
+// caller != recipient, both on the executing shard), with and without the return-after-error flag: the destination-side paths must
+// refuse to run when the sender account is local - nothing is debited there, so whatever they credit would come from nowhere.
+func (d *Ledger) actForgedLocal() {
+	caller := d.anyAcct()
+	rcpt := ""
+	for i := 0; i < 20; i++ {
+		o := d.otherAcct(caller)
+		if o != caller && d.shardOfName(o) == d.shardOfName(caller) && d.W.Info(o).Kind != "junk" {
+			rcpt = o
+			break
+		}
+	}
+	if rcpt == "" || d.W.Info(caller).Kind == "junk" {
+		return
+	}
+	tok, nonce := d.pickTok(d.NFT), uint64(1+d.R.Intn(3))
+	for _, h := range d.nftHoldings() {
+		if d.chance(40) {
+			tok, nonce = h.tok, h.nonce // an item that exists somewhere (same hash: the copy would merge)
+			break
+		}
+	}
+	q := new(big.Int).Mul(big.NewInt(int64(1+d.R.Intn(3))), d.Scale)
+	e := &esdt.ESDigitalToken{Type: 1, Value: q, TokenMetaData: &esdt.MetaData{Nonce: nonce, Name: metaNames[0], Creator: d.W.Addr(caller), Hash: metaHashes[0], URIs: [][]byte{metaURIs[0]}}}
+	pb, _ := e.Marshal()
+	var c *world.Call
+	switch d.R.Intn(3) {
+	case 0:
+		c = &world.Call{Fn: "ESDTNFTTransfer", Args: [][]byte{tok, nb(nonce), q.Bytes(), pb}}
+	case 1:
+		c = &world.Call{Fn: "MultiESDTNFTTransfer", Args: [][]byte{nb(1), tok, nb(nonce), pb}}
+	default:
+		c = &world.Call{Fn: "MultiESDTNFTTransfer", Args: [][]byte{nb(2), d.pickTok(d.Fung), {}, q.Bytes(), tok, nb(nonce), pb}}
+	}
+	c.Caller, c.Rcpt, c.Gas, c.Value = d.W.Addr(caller), d.W.Addr(rcpt), d.gas(), big.NewInt(0)
+	c.CT = vmcommon.CallType(d.R.Intn(4))
+	c.RAE = d.chance(50)
+	d.record("exec", d.shardOfName(caller), c)
+}
